@@ -216,6 +216,32 @@ def _splittable(s):
     return True
 
 
+def _count_loop_ok(loop):
+    """no `continue` belonging to this loop and no store to the counter in the body."""
+    def scan(stmts):
+        for st in stmts:
+            if isinstance(st, ast.Continue):
+                return False
+            if isinstance(st, (ast.For, ast.While)):
+                # a continue inside a nested loop belongs to that loop; stores still matter
+                pass
+            else:
+                for sub in ('body', 'orelse', 'finalbody'):
+                    if isinstance(getattr(st, sub, None), list) and not scan(getattr(st, sub)):
+                        return False
+                for h in getattr(st, 'handlers', []) or []:
+                    if not scan(h.body):
+                        return False
+        return True
+    if not scan(loop.body):
+        return False
+    for st in loop.body:
+        for x in ast.walk(st):
+            if isinstance(x, ast.Name) and x.id == loop.target.id and isinstance(x.ctx, (ast.Store, ast.Del)):
+                return False
+    return True
+
+
 def _leftmost_walrus(e):
     """the assignment expression that is evaluated first (and unconditionally) in e, if there is one; with its parent."""
     parent, field, idx = None, None, None
@@ -287,6 +313,24 @@ def _canon_block(stmts):
             else:
                 s = ast.copy_location(ast.Assign(targets=[s.target], value=s.value, lineno=s.lineno, col_offset=s.col_offset), s)
         _hoist_walrus(s, out)
+        # C17: `for i in itertools.count(a): [if c: break]; body`  ->  `i = a; while [not c / True]: body; i += 1`
+        if isinstance(s, ast.For) and not s.orelse and isinstance(s.target, ast.Name) and isinstance(s.iter, ast.Call) \
+                and ((isinstance(s.iter.func, ast.Attribute) and s.iter.func.attr == 'count' and isinstance(s.iter.func.value, ast.Name)
+                      and s.iter.func.value.id == 'itertools') or (isinstance(s.iter.func, ast.Name) and s.iter.func.id == 'count')) \
+                and len(s.iter.args) <= 1 and not s.iter.keywords \
+                and (not s.iter.args or isinstance(s.iter.args[0], ast.Constant)) and _count_loop_ok(s):
+            start = s.iter.args[0] if s.iter.args else ast.Constant(0)
+            out.append(ast.copy_location(ast.Assign(targets=[ast.Name(id=s.target.id, ctx=ast.Store())], value=start,
+                                                    lineno=s.lineno, col_offset=s.col_offset), s))
+            body = list(s.body)
+            test = ast.Constant(True)
+            if body and isinstance(body[0], ast.If) and not body[0].orelse and len(body[0].body) == 1 \
+                    and isinstance(body[0].body[0], ast.Break):
+                test = _Expr().visit(ast.copy_location(ast.UnaryOp(op=ast.Not(), operand=body[0].test), body[0].test))
+                body = body[1:]
+            body.append(ast.copy_location(ast.AugAssign(target=ast.Name(id=s.target.id, ctx=ast.Store()), op=ast.Add(),
+                                                        value=ast.Constant(1)), s))
+            s = ast.copy_location(ast.While(test=test, body=body, orelse=[]), s)
         for sub in ('body', 'orelse', 'finalbody'):
             if isinstance(getattr(s, sub, None), list):
                 setattr(s, sub, _canon_block(getattr(s, sub)))
